@@ -7,7 +7,7 @@ d=$(realpath $1); crate=${2:-indextree}
 # optional: FLAGS="--features deser" (cargo flags for the demo), EXTRA_PATCH=<file> (applied in both runs, e.g. a dev-dependency for the demo)
 FLAGS=${FLAGS:-}; EXTRA_PATCH=${EXTRA_PATCH:-}
 wt=/tmp/confirm-wt-$$
-export CARGO_TARGET_DIR=/tmp/confirm-target
+export CARGO_TARGET_DIR=${CONFIRM_TARGET:-/tmp/confirm-target}
 git -C /repo worktree add -q --detach $wt HEAD || exit 3
 cleanup() { git -C /repo worktree remove --force $wt >/dev/null 2>&1; }
 trap cleanup EXIT
